@@ -6,6 +6,7 @@ import ast
 
 from ..cfg import CFG, forward
 from ..model import AnalysisError, chain, unparse
+from ..normalize import expanded, single_assignments, xtext
 from ..report import RuleResult
 
 MUT_CALLS = {"create_group", "create_dataset", "require_group", "require_dataset"}
@@ -29,6 +30,7 @@ class Who:
 
     def __init__(self, fn):
         self.fn = fn
+        self.sa_defs = single_assignments(fn.node)
         self.env: dict[str, set] = {}
         self.uid_of: dict[str, str] = {}  # local name -> entity expr whose uid it holds
         params = fn.params[1:] if fn.kind in ("classmethod", "method") else fn.params
@@ -81,8 +83,14 @@ class Who:
             return True
         return False
 
+    def x(self, e):
+        """alias-expanded form of an expression (single-assignment locals replaced by what they are bound to)"""
+        return expanded(e, self.fn.node, self.sa_defs)
+
     def uid_expr(self, e):
         """Entity expression E such that e evaluates to (a string form of) E.uid."""
+        if isinstance(e, ast.Name) and e.id in self.sa_defs and e.id not in self.uid_of:
+            return self.uid_expr(self.sa_defs[e.id])
         if isinstance(e, ast.Attribute) and e.attr == "uid":
             return unparse(e.value)
         if isinstance(e, ast.Name):
@@ -93,7 +101,10 @@ class Who:
 
     def who(self, e) -> set:
         if isinstance(e, ast.Name):
-            return set(self.env.get(e.id, set()))
+            got = set(self.env.get(e.id, set()))
+            if not got and e.id in self.sa_defs:
+                return self.who(self.sa_defs[e.id])
+            return got
         if isinstance(e, ast.Subscript):
             u = self.uid_expr(e.slice)
             if u is not None and not isinstance(e.value, ast.Call):
@@ -122,30 +133,18 @@ class Who:
 
 
 def _skeleton_key(fn, key) -> bool:
-    """The key expression is a local that can only hold the name of a skeleton container (by what it is bound from, not by its spelling)."""
-    from ..roles import writer_roles
+    """The key expression can only hold the name of a skeleton container (value-set analysis of the expression: constants,
+    locals assigned constants in branches, loop variables over literal tables, next(<generator over a literal table>), dict
+    look-ups), or it is the dataset name of an attribute looked up in KEY_MAP."""
+    from ..roles import const_values
 
-    if not isinstance(key, ast.Name):
-        return False
-    role = writer_roles(fn.node).get(key.id, key.id)
-    if role in ("entity_type", "entity_type_str"):
+    vals = const_values(key, fn.node)
+    if vals is not None and vals and vals <= SKELETON:
         return True
-    consts = lambda d: {v.value for v in d.values if isinstance(v, ast.Constant)}  # noqa: E731
-    dicts = {}
-    for a in ast.walk(fn.node):
-        if isinstance(a, ast.Assign) and isinstance(a.value, ast.Dict) and isinstance(a.targets[0], ast.Name):
-            dicts[a.targets[0].id] = a.value
-    for lp in ast.walk(fn.node):
-        if isinstance(lp, ast.For) and isinstance(lp.iter, ast.Call) and isinstance(lp.iter.func, ast.Attribute) and lp.iter.func.attr in ("items", "values") \
-                and isinstance(lp.iter.func.value, ast.Name) and lp.iter.func.value.id in dicts:
-            names = [t.id for t in ast.walk(lp.target) if isinstance(t, ast.Name)]
-            val_name = names[-1] if names else None
-            if val_name == key.id and consts(dicts[lp.iter.func.value.id]) <= SKELETON:
+    if isinstance(key, ast.Name):
+        for a in ast.walk(fn.node):
+            if isinstance(a, ast.Assign) and isinstance(a.targets[0], ast.Name) and a.targets[0].id == key.id and "KEY_MAP" in unparse(a.value):
                 return True
-    # the dataset name of an attribute: bound from KEY_MAP
-    for a in ast.walk(fn.node):
-        if isinstance(a, ast.Assign) and isinstance(a.targets[0], ast.Name) and a.targets[0].id == key.id and "KEY_MAP" in unparse(a.value):
-            return True
     return False
 
 
@@ -184,7 +183,8 @@ def rule_prov(ctx) -> RuleResult:
     p = ctx.p
     W = p.cls("H5Writer")
     n_sites = 0
-    for name, fn in W.methods.items():
+    for name, fn0 in W.methods.items():
+        fn = ctx.view(fn0)
         who = Who(fn)
         allowed = allowed_exprs(who.params)
         # loops over handle members
@@ -233,6 +233,10 @@ def rule_prov(ctx) -> RuleResult:
             if isinstance(c, ast.Call) and isinstance(c.func, ast.Attribute) and chain(c.func.value) in (["cls"], ["H5Writer"]) and len(c.args) >= 2:
                 callee = W.methods.get(c.func.attr)
                 if callee is None or c.func.attr in ("create_dataset", "fetch_handle"):
+                    continue
+                if c.func.attr.startswith("_") and not c.func.attr.startswith("__"):
+                    # a private helper that could not be expanded in place: it works on what it is handed (its own
+                    # body is analysed like every other writer function: mutations only on its handle / uid parameters)
                     continue
                 arg = c.args[1]
                 txt = unparse(arg)
@@ -293,12 +297,14 @@ def rule_idemp(ctx) -> RuleResult:
     )
     p = ctx.p
     W = p.cls("H5Writer")
-    we = W.methods["write_entity"]
-    wp = W.methods["write_to_parent"]
-    se = W.methods["save_entity"]
-    # write_entity: the stored test
+    we = ctx.view(W.methods["write_entity"])
+    wp = ctx.view(W.methods["write_to_parent"])
+    se = ctx.view(W.methods["save_entity"])
+    # write_entity: the stored test = `<uid string of the entity> in <handle>` (whatever the locals are called)
     g = CFG(we.node)
-    stored = [n for n in g.nodes if n.kind == "test" and isinstance(n.ast, ast.Compare) and isinstance(n.ast.ops[0], ast.In) and "uid" in unparse(n.ast.left)]
+    who_we = Who(we)
+    stored = [n for n in g.nodes if n.kind == "test" and isinstance(n.ast, ast.Compare) and len(n.ast.ops) == 1 and isinstance(n.ast.ops[0], ast.In)
+              and who_we.uid_expr(n.ast.left) is not None and who_we.who(n.ast.comparators[0])]
     if not stored:
         raise AnalysisError("H5Writer.write_entity: `uid in flat container` test not found")
     T = stored[0]
@@ -310,10 +316,14 @@ def rule_idemp(ctx) -> RuleResult:
                  "re-saving a stored entity (every close()) rewrites its node")
     for fn, limit_to in ((we, T), (wp, None), (se, None)):
         gg = CFG(fn.node) if fn is not we else g
+        xt = lambda e, fn=fn: xtext(e, fn.node)  # noqa: E731  (keys and containers compared after alias expansion)
 
-        def transfer(node, st):
+        def xfacts(test, truth, xt=xt):
+            return {(xt(ast.parse(a, mode="eval").body), xt(ast.parse(b, mode="eval").body)) for a, b in _notin_facts(test, truth)}
+
+        def transfer(node, st, xfacts=xfacts):
             if node.kind == "test" and node.ast is not None:
-                return {"true": st | frozenset(_notin_facts(node.ast, True)), "false": st | frozenset(_notin_facts(node.ast, False)), None: st}
+                return {"true": st | frozenset(xfacts(node.ast, True)), "false": st | frozenset(xfacts(node.ast, False)), None: st}
             return st
 
         IN = forward(gg, frozenset(), transfer, lambda a, b: a & b)
@@ -333,7 +343,7 @@ def rule_idemp(ctx) -> RuleResult:
             if node not in reachable or node.ast is None or isinstance(node.ast, list) or node.kind not in ("stmt",):
                 continue
             for mnode, base, what, key in mutation_sites_in(node.ast):
-                b, k = unparse(base), unparse(key) if key is not None else None
+                b, k = xt(base), xt(key) if key is not None else None
                 ok = (k, b) in IN.get(node, frozenset())
                 res.inst(f"H5Writer.{fn.name}:{node.lineno} {what} {b}[{k}] guarded by `{k} not in {b}`", nontrivial=True, ok=ok)
                 if not ok:
@@ -378,32 +388,61 @@ def rule_handle(ctx) -> RuleResult:
         floor=3,
     )
     p = ctx.p
-    fh = p.func("H5Writer.fetch_handle")
+    fh = ctx.view(p.func("H5Writer.fetch_handle"))
     ent = fh.params[2]
-    rets = [r for r in ast.walk(fh.node) if isinstance(r, ast.Return) and r.value is not None and unparse(r.value) != "None"]
+    who = Who(fh)
+    g = CFG(fh.node)
+
+    def atoms(test, truth):
+        """facts that hold on the `truth` edge of a test: ('uidin', E, bool) / ('isent', bool)"""
+        if isinstance(test, ast.UnaryOp) and isinstance(test.op, ast.Not):
+            return atoms(test.operand, not truth)
+        if isinstance(test, ast.BoolOp):
+            if (isinstance(test.op, ast.And) and truth) or (isinstance(test.op, ast.Or) and not truth):
+                return set().union(*[atoms(v, truth) for v in test.values])
+            return set()
+        if isinstance(test, ast.Compare) and len(test.ops) == 1 and isinstance(test.ops[0], (ast.In, ast.NotIn)):
+            e = who.uid_expr(test.left)
+            if e is not None and who.who(test.comparators[0]):
+                return {("uidin", e, truth == isinstance(test.ops[0], ast.In))}
+        if isinstance(test, ast.Call) and getattr(test.func, "id", None) == "isinstance" and len(test.args) == 2 and unparse(test.args[0]) == ent:
+            names = {unparse(x) for x in (test.args[1].elts if isinstance(test.args[1], ast.Tuple) else [test.args[1]])}
+            if names & {"Entity", "EntityType", "shared.Entity", "shared.EntityType"}:
+                return {("isent", truth)}
+        return set()
+
+    def transfer(node, st):
+        if node.kind == "test" and node.ast is not None:
+            return {"true": st | frozenset(atoms(node.ast, True)), "false": st | frozenset(atoms(node.ast, False)), None: st}
+        return st
+
+    IN = forward(g, frozenset(), transfer, lambda x, y: x & y)
+    rets = [n for n in g.nodes if n.kind == "return" and n.ast is not None and unparse(n.ast.value if isinstance(n.ast, ast.Return) else n.ast) != "None"]
     if len(rets) < 2:
         raise AnalysisError("H5Writer.fetch_handle: return statements not recognised")
-    from ..roles import canon, writer_roles
-    fr = writer_roles(fh.node)
-    unparse_r = lambda n: canon(n, fr)  # noqa: E731  (uid / base / base_handle by role)
     for r in rets:
-        v = unparse_r(r.value)
-        chain_ = [i for i in ast.walk(fh.node) if isinstance(i, ast.If) and any(x is r for s_ in i.body for x in ast.walk(s_))]
-        guard = chain_[-1] if chain_ else None
-        gtxt = " and ".join(unparse_r(i.test) for i in chain_)
-        if "as_str_if_uuid(uid)" in v or "as_str_if_uuid(uid) in" in gtxt:
-            ok = any(isinstance(a, ast.Assign) and unparse_r(a.targets[0]) == "uid" and unparse(a.value) == f"{ent}.uid" for a in ast.walk(fh.node))
-            res.inst(f"fetch_handle:{r.lineno} returns {v[:40]} keyed by the entity's own uid", nontrivial=True, ok=ok)
+        val = r.ast.value if isinstance(r.ast, ast.Return) else r.ast
+        v = unparse(val)
+        facts = IN.get(r, frozenset())
+        uid_known = [f for f in facts if f[0] == "uidin" and f[2] is True]
+        keyed = isinstance(val, ast.Subscript) and who.uid_expr(val.slice) is not None
+        if uid_known or keyed:
+            # an entity / type node (or, with return_parent, its container): the uid that was looked up is the entity's own
+            used = {f[1] for f in uid_known} | ({who.uid_expr(val.slice)} if keyed else set())
+            ok = used == {ent}
+            res.inst(f"fetch_handle:{r.lineno} returns a node found by the uid of {sorted(used)}", nontrivial=True, ok=ok)
             if not ok:
-                res.find("H5Writer", "fetch_handle", f"returns {v[:40]} keyed by something else than {ent}.uid", f"{fh.module.relpath}:{r.lineno}",
+                res.find("H5Writer", "fetch_handle", f"returns a node keyed by something else than {ent}.uid", f"{fh.module.relpath}:{r.lineno}",
                          "writer functions act on another entity's node")
         else:
-            excl = "isinstance" in gtxt and any(k in gtxt for k in ("Entity", "EntityType", "Workspace"))
-            res.inst(f"fetch_handle:{r.lineno} returns the project group under `{gtxt[:70]}`", nontrivial=True, ok=excl)
+            excl = ("isent", False) in facts
+            cond = "not an Entity / EntityType" if excl else "no kind test"
+            res.inst(f"fetch_handle:{r.lineno} returns the project group ({cond})", nontrivial=True, ok=excl)
             if not excl:
-                res.find("H5Writer", "fetch_handle", f"project group returned under `{gtxt[:60]}` (a name match, no kind test)", f"{fh.module.relpath}:{r.lineno}",
+                res.find("H5Writer", "fetch_handle", "project group returned under `` (a name match, no kind test)".replace("``", "a condition without a kind test"), f"{fh.module.relpath}:{r.lineno}",
                          "any entity or type whose name equals the project name is resolved to the PROJECT group: its attributes are written onto the "
                          "project header and its own node is never updated")
+    from ..roles import const_values  # noqa: F401
     hier = [d for d in ast.walk(fh.node) if isinstance(d, ast.Dict) and len(d.keys) >= 6]
     ok = bool(hier)
     res.inst("fetch_handle: kind -> container table present", ok=ok)
